@@ -126,4 +126,143 @@ theorem slice_zip_sublist (a b : Nat) (l1 l2 : List ℚ) :
     (List.zip (slice a b l1) (slice a b l2)).Sublist (List.zip l1 l2) := by
   rw [slice_zip]; exact (List.take_sublist _ _).trans (List.drop_sublist _ _)
 
+theorem wf_keepMask (m : List Bool) (s : Spectrum) (h : WF s) : WF ⟨keepMask m s.wave, keepMask m s.value⟩ :=
+  ⟨h.1.sublist (keepMask_sublist m s.wave), keepMask_length_eq m _ _ h.2⟩
+
+theorem sample_length (s : Spectrum) (fl fr : ℚ) (xs v : List ℚ) (h : sample s fl fr xs = .ok v) :
+    v.length = xs.length := by
+  simp only [sample] at h
+  split at h
+  · cases h
+  · cases h; simp
+
+theorem midpoints_length : ∀ c : List ℚ, (midpoints c).length = c.length - 1 := by
+  intro c
+  induction c with
+  | nil => simp [midpoints]
+  | cons c0 c ih => cases c with
+    | nil => simp [midpoints]
+    | cons c1 cs => simp only [midpoints, List.length_cons] at ih ⊢; omega
+
+theorem trapzBins_length : ∀ x f : List ℚ, x.length = f.length → (trapzBins x f).length = x.length - 1 := by
+  intro x
+  induction x with
+  | nil => intro f _; simp [trapzBins]
+  | cons x0 x ih =>
+    intro f h
+    cases x with
+    | nil => simp [trapzBins]
+    | cons x1 xs => cases f with
+      | nil => simp at h
+      | cons f0 f => cases f with
+        | nil => simp at h
+        | cons f1 fs =>
+          have := ih (f1 :: fs) (by simpa using h)
+          simp only [trapzBins, List.length_cons] at this ⊢; omega
+
+theorem trapzBins_nonneg : ∀ x f : List ℚ, StrictInc x → (∀ v ∈ f, 0 ≤ v) → ∀ b ∈ trapzBins x f, 0 ≤ b := by
+  intro x
+  induction x with
+  | nil => intro f _ _ b hb; simp [trapzBins] at hb
+  | cons x0 x ih =>
+    intro f hx hf b hb
+    cases x with
+    | nil => simp [trapzBins] at hb
+    | cons x1 xs => cases f with
+      | nil => simp [trapzBins] at hb
+      | cons f0 f => cases f with
+        | nil => simp [trapzBins] at hb
+        | cons f1 fs =>
+          simp only [trapzBins, List.mem_cons] at hb
+          rcases hb with rfl | hb
+          · have h01 : x0 < x1 := (List.pairwise_cons.mp hx).1 x1 (by simp)
+            have := hf f0 (by simp); have := hf f1 (by simp)
+            have : 0 ≤ x1 - x0 := by linarith
+            positivity
+          · exact ih (f1 :: fs) (List.pairwise_cons.mp hx).2 (fun v hv => hf v (by simp [hv])) b hb
+
+theorem sumL_eq_sum (l : List ℚ) : sumL l = l.sum := by
+  simp [sumL, List.sum_eq_foldl]
+
+theorem head_le_of_strictInc : ∀ (l : List ℚ) (a : ℚ), StrictInc l → l.head? = some a → ∀ x ∈ l, a ≤ x := by
+  intro l a hl ha x hx
+  cases l with
+  | nil => simp at ha
+  | cons y ys =>
+    simp at ha; subst ha
+    rcases List.mem_cons.mp hx with rfl | hx
+    · exact le_refl _
+    · exact le_of_lt ((List.pairwise_cons.mp hl).1 x hx)
+
+theorem le_getLast_of_strictInc : ∀ (l : List ℚ) (b : ℚ), StrictInc l → l.getLast? = some b → ∀ x ∈ l, x ≤ b := by
+  intro l
+  induction l with
+  | nil => intro b _ hb; simp at hb
+  | cons y ys ih =>
+    intro b hl hb x hx
+    cases ys with
+    | nil => simp at hb; subst hb; simp at hx; subst hx; exact le_refl _
+    | cons z zs =>
+      rw [List.getLast?_cons_cons] at hb
+      rcases List.mem_cons.mp hx with rfl | hx
+      · have h1 : x < z := (List.pairwise_cons.mp hl).1 z (by simp)
+        exact le_trans (le_of_lt h1) (ih b (List.pairwise_cons.mp hl).2 hb z (by simp))
+      · exact ih b (List.pairwise_cons.mp hl).2 hb x hx
+
+theorem firstIdx_spec (p : ℚ → Bool) : ∀ (l : List ℚ) (a : ℕ), firstIdx p l = some a →
+    (∃ v, l[a]? = some v ∧ p v = true) ∧ ∀ j, j < a → ∀ v, l[j]? = some v → p v = false := by
+  intro l
+  induction l with
+  | nil => intro a h; simp [firstIdx] at h
+  | cons x xs ih =>
+    intro a h
+    by_cases hx : p x = true
+    · simp [firstIdx, hx] at h; subst h
+      exact ⟨⟨x, by simp, hx⟩, fun j hj => absurd hj (Nat.not_lt_zero j)⟩
+    · have hx' : p x = false := by simpa using hx
+      simp only [firstIdx, hx', Bool.false_eq_true, if_false, Option.map_eq_some_iff] at h
+      obtain ⟨a', ha', rfl⟩ := h
+      obtain ⟨⟨v, hv, hpv⟩, hlt⟩ := ih a' ha'
+      refine ⟨⟨v, by simpa using hv, hpv⟩, ?_⟩
+      intro j hj w hw
+      cases j with
+      | zero => simp at hw; subst hw; exact hx'
+      | succ j => exact hlt j (by omega) w (by simpa using hw)
+
+theorem lastIdx_spec (p : ℚ → Bool) (l : List ℚ) (b : ℕ) (h : lastIdx p l = some b) :
+    (∃ v, l[b]? = some v ∧ p v = true) ∧ ∀ j, b < j → ∀ v, l[j]? = some v → p v = false := by
+  simp only [lastIdx, Option.map_eq_some_iff] at h
+  obtain ⟨i, hi, rfl⟩ := h
+  obtain ⟨⟨v, hv, hpv⟩, hlt⟩ := firstIdx_spec p l.reverse i hi
+  have hil : i < l.length := by
+    have := (List.getElem?_eq_some_iff.mp hv).1; simpa using this
+  refine ⟨⟨v, ?_, hpv⟩, ?_⟩
+  · rw [List.getElem?_reverse hil] at hv; exact hv
+  · intro j hj w hw
+    have hjl : j < l.length := (List.getElem?_eq_some_iff.mp hw).1
+    have hj' : l.length - 1 - j < i := by omega
+    apply hlt (l.length - 1 - j) hj' w
+    rw [List.getElem?_reverse (by omega)]
+    have : l.length - 1 - (l.length - 1 - j) = j := by omega
+    rw [this]; exact hw
+
+theorem firstIdx_none (p : ℚ → Bool) : ∀ (l : List ℚ), firstIdx p l = none → ∀ v ∈ l, p v = false := by
+  intro l
+  induction l with
+  | nil => intro _ v hv; simp at hv
+  | cons x xs ih =>
+    intro h v hv
+    by_cases hx : p x = true
+    · simp [firstIdx, hx] at h
+    · have hx' : p x = false := by simpa using hx
+      simp only [firstIdx, hx', Bool.false_eq_true, if_false, Option.map_eq_none_iff] at h
+      rcases List.mem_cons.mp hv with rfl | hv
+      · exact hx'
+      · exact ih h v hv
+
+theorem lastIdx_none (p : ℚ → Bool) (l : List ℚ) (h : lastIdx p l = none) : ∀ v ∈ l, p v = false := by
+  simp only [lastIdx, Option.map_eq_none_iff] at h
+  intro v hv
+  exact firstIdx_none p l.reverse h v (by simpa using hv)
+
 end Lentil.Spec
